@@ -634,7 +634,7 @@ class Flow:
                 n0 = len(self.ret_ok)
                 self.ret_ok |= leaves
                 ch |= len(self.ret_ok) != n0
-        if rv['k'] == 'agg' and rv.get('agg') in ('adt', 'tuple') and not place['p']:
+        if rv['k'] == 'agg' and rv.get('agg') in ('adt', 'tuple', 'closure') and not place['p']:
             r = self.find(place['l'])
             names = rv.get('fields') or [str(i) for i in range(len(rv['ops']))]
             if rv.get('agg') == 'adt' and rv.get('adt') in WRAPPER_ADTS:
@@ -741,14 +741,14 @@ class Flow:
                 if not dest['p']:
                     ch |= self._merge_agg(self.find(dest['l']), '', self._agg_of_operand(args[0]))
                 # higher-order adaptors keep their closure's effect
-                for a in argl[1:]:
-                    res |= self._closure_effect(a, argl, bi)
+                for ai_, a in enumerate(argl[1:], 1):
+                    res |= self._closure_effect(a, argl, bi, self._agg_of_operand(args[ai_]))
             else:
                 res = set()
                 for a in argl:
                     res |= a
-                for a in argl:
-                    res |= self._closure_effect(a, argl, bi)
+                for ai_, a in enumerate(argl):
+                    res |= self._closure_effect(a, argl, bi, self._agg_of_operand(args[ai_]))
                 if nm in OPS:
                     res.add('op:' + OPS[nm])
                 else:
@@ -783,9 +783,9 @@ class Flow:
             ch |= len(self.ret_ok) != n0
         return ch
 
-    def _closure_effect(self, leaves, argl, bi):
+    def _closure_effect(self, leaves, argl, bi, envagg=None):
         """for closure values among `leaves`: the closure body's result with its parameters bound
-        to the elements of the other arguments"""
+        to the elements of the other arguments; envagg = the per-capture field map of the closure value"""
         out = set()
         for lf in leaves:
             if not lf.startswith('closure:'):
@@ -805,7 +805,7 @@ class Flow:
             # closure arg 1 = environment (captures): approximated by the closure value's leaves
             actual = [set(x for x in leaves if not x.startswith('closure:'))]
             actual += [elems for _ in range(cfn.arg_count - 1)]
-            out |= self._subst(s.ret, actual, bi, env_arg=True)
+            out |= self._subst(s.ret, actual, bi, env_arg=True, argaggs=[envagg] + [None] * (len(actual) - 1) if envagg else None)
         return out
 
     def _subst(self, leaves, argl, bi, env_arg=False, argaggs=None):
@@ -818,6 +818,7 @@ class Flow:
                 if k - 1 < len(argl):
                     src = argl[k - 1]
                     # precise field map of the actual argument, if it has one
+                    precise = False
                     if argaggs is not None and k - 1 < len(argaggs) and argaggs[k - 1] and suffix.startswith('.'):
                         parts = _SUFFIX_RE.findall(suffix)
                         names = []
@@ -830,9 +831,10 @@ class Flow:
                             if key in argaggs[k - 1]:
                                 src = argaggs[k - 1][key]
                                 suffix = ''.join(parts[n:])
+                                precise = True
                                 break
                     for x in src:
-                        if env_arg and k == 1:
+                        if env_arg and k == 1 and not precise:
                             # captured variables: drop the capture field index (.0/.1) of the env
                             suffix2 = re.sub(r'^\.\d+', '', suffix)
                             y = self.ext_path(x, suffix2)
@@ -1337,7 +1339,9 @@ def effective_guards(db, path, binding=None, depth=0, stack=(), opaque=None, cov
                         for g in effective_guards(db, cp, binding, depth + 1, stack + (path,), opaque, 'all', sinks):
                             if g.reject != 'panic' and not propagates:
                                 continue
-                            g2 = Guard(g.rel, fl._subst(g.lhs, actual, bi, env_arg=True), fl._subst(g.rhs, actual, bi, env_arg=True),
+                            ea = fl._agg_of_operand(args[ai])
+                            ag = [ea] + [None] * (len(actual) - 1) if ea else None
+                            g2 = Guard(g.rel, fl._subst(g.lhs, actual, bi, env_arg=True, argaggs=ag), fl._subst(g.rhs, actual, bi, env_arg=True, argaggs=ag),
                                        g.fn, g.bb, g.line, g.reject, _combine(_combine(cov, 'iteration'), g.covers))
                             g2.kind = getattr(g, 'kind', None)
                             g2.root = getattr(g, 'root', None)
